@@ -87,6 +87,13 @@ Theorem C04_spans_in_file : forall k p len, parts_within len p -> within len (di
 Proof. exact spans_in_file. Qed.
 Print Assumptions C04_spans_in_file.
 
+(* An identifier used ANYWHERE in an expression is looked up (and, if it does not resolve, recorded as undefined and
+   reported by the truly-undefined rule at its usage span) -- also as the right operand of `&&` / `||` whose left operand
+   already decides the result: the evaluator evaluates both operands of every binary operator (translated shape). *)
+Theorem C04_undefined_anywhere : forall e p, mentions p e -> In p (tracked e).
+Proof. exact undefined_anywhere. Qed.
+Print Assumptions C04_undefined_anywhere.
+
 (* ---- parse level, on dev-parse's parser model (model/Nom.v + model/Parser.v, the whole grammar; see props/C05.v) ----
    For ALL texts: every Error token anywhere in the tree of a parsed file (top level or nested blocks) pushed the
    diagnostic `unexpected '<its text>'` over exactly its span -- unless it was the one diagnostic that
